@@ -222,12 +222,17 @@ def _is_normal_reduce_expr(expr: IndexLambda) -> bool:
     input_ary = expr.bindings[expr.expr.inner_expr.aggregate.name]
 
     i_out_dim = 0
+    seen_redn_indices: set[str] = set()
 
     for idim, idx in enumerate(expr.expr.inner_expr.index_tuple):
         if not isinstance(idx, p.Variable):
             return False
 
         if idx.name in expr.expr.bounds:
+            if idx.name in seen_redn_indices:
+                # e.g. a trace: not a reduction over independent axes
+                return False
+            seen_redn_indices.add(idx.name)
             lbound, ubound = expr.expr.bounds[idx.name]
             if (not isinstance(lbound, int) or not isinstance(ubound, int)):
                 raise NotImplementedError("Parametric bound expressions not"
